@@ -112,6 +112,10 @@ func (f *function) info() targetInfo {
 	return f.targetInfo
 }
 
+func (f *function) setInfo(info targetInfo) {
+	f.targetInfo = info
+}
+
 var functionEnvKeys = []starlark.String{
 	"names",
 	"constant values",
